@@ -26,6 +26,69 @@ CHAR_HANDLERS = ["do_std_length", "do_std_substr", "do_std_find_substr", "do_std
 BYTE_OK = ["do_std_encode_utf8", "do_std_base64", "do_std_md5", "do_std_sha1", "do_std_sha256", "do_std_sha512", "do_std_sha3"]
 
 
+# byte / UTF-16 views of a string (the byte length is tolerated outside std.length: it sizes buffers and is policed by R1)
+BYTE_VIEWS = ("<str>::as_bytes", "<str>::bytes", "<str>::encode_utf16", "<alloc::string::String>::as_bytes",
+              "<alloc::string::String>::into_bytes", "<str>::len")
+# str functions generic over core::str::pattern::Pattern: what they match is decided by the pattern TYPE they are instantiated with
+PATTERN_FNS = ("strip_prefix", "strip_suffix", "trim_start_matches", "trim_end_matches", "trim_matches", "trim_left_matches",
+               "trim_right_matches", "find", "rfind", "contains", "starts_with", "ends_with", "split", "rsplit", "splitn", "rsplitn",
+               "split_terminator", "rsplit_terminator", "split_inclusive", "split_once", "rsplit_once", "matches", "rmatches",
+               "match_indices", "rmatch_indices")
+
+
+def _with_new_callees(F, fn):
+    """fn, its closures and, transitively, the local functions they call that did not exist on the reference tree (extracted
+    helpers are transparent: their body is part of the handler that calls them), each with its closures."""
+    out, seen, work = [], set(), [fn]
+    while work:
+        g = work.pop()
+        if g is None or g.q in seen or g.body is None:
+            continue
+        seen.add(g.q)
+        out.append(g)
+        work.extend(F.closures_of(g))
+        for bb, t in g.body.calls():
+            f = t["f"]
+            q = f.get("r") if f.get("rlocal") else None
+            if q and q not in seen and F.is_new_fn(q):
+                work.append(F.fn_opt(q))
+    return out
+
+
+def _codepoint_pattern(body, ti, depth=0):
+    """True when type #ti, used as a str Pattern, matches whole code points one at a time: `char`, a slice / array of `char`
+    (any of them) or a `FnMut(char) -> bool` predicate (closure, fn item, fn pointer: the only callable Pattern impl) — behind any
+    number of references.  `&str` / `&String` patterns (substring search) are not: they say nothing about code-point iteration."""
+    try:
+        ty = body.ty(ti)
+    except Exception:
+        return False
+    k = ty.get("k")
+    if k == "prim":
+        return ty.get("s") == "char"
+    if k in ("closure", "fndef", "fnptr"):
+        return True
+    if k in ("ref", "slice", "array") and depth < 4 and "t" in ty:
+        return _codepoint_pattern(body, ty["t"], depth + 1)
+    return False
+
+
+def _codepoint_primitives(g):
+    """resolved callees of g that read a string code point by code point: chars() / char_indices() / anything on the Chars
+    iterator, or a str pattern function instantiated with a code-point pattern (`&[char]`, `char`, `FnMut(char) -> bool`)"""
+    out = set()
+    for bb, t in g.body.calls():
+        n = callee_name(t) or ""
+        if n in ("<str>::chars", "<str>::char_indices") or "core::str::iter::Chars" in n or "core::str::iter::CharIndices" in n:
+            out.add(n)
+        elif n.startswith("<str>::") and n[len("<str>::"):] in PATTERN_FNS:
+            f = t["f"]
+            ga = f.get("rga") or f.get("ga") or []
+            if ga and all(_codepoint_pattern(g.body, x) for x in ga):
+                out.add("%s::<%s>" % (n, ", ".join(g.body.ty(x)["s"] for x in ga)))
+    return out
+
+
 def rule_r2(F, rep):
     R = rep.rule("C18.R2", "the string builtins that are defined on code points iterate with chars() and take no "
                  "byte or UTF-16 view of the string")
@@ -36,31 +99,38 @@ def rule_r2(F, rep):
             continue
         n += 1
         names = set()
-        fns = [fn] + F.closures_of(fn)
+        prims = set()
+        # the handler is read together with its closures and the helpers extracted from it (functions new w.r.t. the reference
+        # tree): a byte view hidden in such a helper counts against the handler, a chars() in it counts for it
+        fns = _with_new_callees(F, fn)
         for g in fns:
             for bb, t in g.body.calls():
                 names.add(callee_name(t) or "")
-        byte_views = sorted(x for x in names if x in ("<str>::as_bytes", "<str>::bytes", "<str>::encode_utf16", "<alloc::string::String>::as_bytes",
-                                                      "<alloc::string::String>::into_bytes", "<str>::len"))
-        uses_chars = any(x in ("<str>::chars", "<str>::char_indices") or "core::str::iter::Chars" in x for x in names)
+            prims |= _codepoint_primitives(g)
+        byte_views = sorted(x for x in names if x in BYTE_VIEWS)
+        uses_chars = bool(prims)
         # std.length on strings must count chars; other handlers must at least iterate chars
         ok = uses_chars and not [b for b in byte_views if b != "<str>::len"]
         if h == "do_std_length":
             ok = ok and "<str>::len" not in byte_views
-        rep.ob(R, "handler|%s" % h, ok, {"handler": h, "chars": uses_chars, "byte_views": byte_views})
+        rep.ob(R, "handler|%s" % h, ok, {"handler": h, "chars": uses_chars, "byte_views": byte_views,
+                                         "code_point_primitives": sorted(prims), "read_with": sorted(g.q for g in fns if g is not fn)})
         if not ok:
             rep.violation(R, "%s|code-point-primitive" % fn.q,
-                          "%s %s" % (h, "does not iterate code points (no chars())" if not uses_chars else "takes a byte view of the string: %s" % byte_views),
+                          "%s %s" % (h, "does not iterate code points (no chars(), no code-point pattern)" if not uses_chars else "takes a byte view of the string: %s" % byte_views),
                           fn.loc)
     rep.floor(R, n, 7, "code-point string handlers")
-    # string indexing in Evaluator::run (State::Index on a string) uses chars().nth
+    # string indexing in Evaluator::run (State::Index on a string) uses chars().nth — in run itself or in a helper extracted from it
     run = F.fn("<%s>::run" % E)
     ok = False
-    for bb, t in run.body.calls():
-        f = t["f"]
-        if f["k"] == "def" and f["d"].endswith("Iterator::nth") and "self" in f and "Chars" in run.body.ty(f["self"])["s"]:
-            ok = True
-    rep.ob(R, "string-index|chars().nth", ok)
+    where = []
+    for g in _with_new_callees(F, run):
+        for bb, t in g.body.calls():
+            f = t["f"]
+            if f["k"] == "def" and f["d"].endswith("Iterator::nth") and "self" in f and "Chars" in g.body.ty(f["self"])["s"]:
+                ok = True
+                where.append(g.q)
+    rep.ob(R, "string-index|chars().nth", ok, {"in": sorted(set(where))})
     if not ok:
         rep.violation(R, "run|string-index", "string indexing in Evaluator::run no longer uses chars().nth()", run.loc)
 
